@@ -174,6 +174,14 @@ class SimRawIO(io.RawIOBase):
     def close(self):
         if not self.closed:
             self._st.closed += 1
+            if self.writable() and self.name and os.path.isabs(str(self.name)):
+                # mirror to the real directory, so that code that stats, renames or
+                # re-opens the file behind the patched open finds what was written
+                try:
+                    with _real_open(self.name, 'wb') as f:
+                        f.write(bytes(self._f.data))
+                except OSError:
+                    pass
         super().close()
 
     def fileno(self):
@@ -214,7 +222,7 @@ class Mount:
         p = self.path(name)
         self.files.pop(p, None)
         try:
-            os.unlink(p)
+            getattr(self, '_real_unlink', os.unlink)(p)
         except FileNotFoundError:
             pass
 
@@ -262,6 +270,11 @@ class Mount:
             raise FileExistsError(_errno.EEXIST, os.strerror(_errno.EEXIST), p)
         if p not in self.files:
             self.files[p] = SimFile()
+        if any(c in m for c in 'wax+') and not os.path.exists(p):
+            try:
+                _real_open(p, 'ab').close()     # the name exists from now on
+            except OSError:
+                pass
         raw = SimRawIO(self.files[p], m, self.plans.get(p), st, name=p)
         if buffering == 0:
             if not binary:
@@ -287,16 +300,58 @@ class Mount:
             t._CHUNK_SIZE = tc
         return t
 
+    def _inside(self, path):
+        try:
+            p = os.path.abspath(os.fspath(path))
+        except TypeError:
+            return None
+        if isinstance(p, bytes):
+            p = os.fsdecode(p)
+        return p if p.startswith(self.dir + os.sep) else None
+
+    def _replace(self, src, dst, **kw):
+        a, b = self._inside(src), self._inside(dst)
+        self._real_replace(src, dst, **kw)      # raises as the OS would
+        if a is not None and a in self.files:
+            sf = self.files.pop(a)
+            if b is not None:
+                self.files[b] = sf
+        elif b is not None:
+            self.files.pop(b, None)             # replaced by a file the device never saw
+
+    def _rename(self, src, dst, **kw):
+        a, b = self._inside(src), self._inside(dst)
+        self._real_rename(src, dst, **kw)
+        if a is not None and a in self.files:
+            sf = self.files.pop(a)
+            if b is not None:
+                self.files[b] = sf
+        elif b is not None:
+            self.files.pop(b, None)
+
+    def _unlink(self, path, **kw):
+        a = self._inside(path)
+        self._real_unlink(path, **kw)
+        if a is not None:
+            self.files.pop(a, None)
+
     def __enter__(self):
         assert not self._installed
         io.open = self._open
         builtins.open = self._open
+        # the file namespace: renames and removals of mount paths move the device files too
+        self._real_replace, self._real_rename = os.replace, os.rename
+        self._real_unlink, self._real_remove = os.unlink, os.remove
+        os.replace, os.rename = self._replace, self._rename
+        os.unlink = os.remove = self._unlink
         self._installed = True
         return self
 
     def __exit__(self, *a):
         io.open = _real_open
         builtins.open = _real_open
+        os.replace, os.rename = self._real_replace, self._real_rename
+        os.unlink, os.remove = self._real_unlink, self._real_remove
         self._installed = False
 
     def destroy(self):
